@@ -385,6 +385,33 @@ def run_fit_sequence(pe, acc, case):
     f_twin = lambda p, x: p[0] * a.exp(-p[1] * x)          # the same model, another function object
     guess = models()['exp'][3]
     n = 6
+    # (0) the arguments come back unchanged: float abscissae in non-ascending order, fits with the plot options, then the same
+    #     objects fitted again - the second fit equals the fit of a fresh copy of the data
+    import matplotlib
+    matplotlib.use('Agg')
+    import matplotlib.pyplot as plt
+    x0, y0 = make_data(pe, 'exp', n, 'shared', 'seqopt')
+    perm = [4, 0, 5, 2, 1, 3]
+    xp, yp = np.array([x0[i] for i in perm], dtype=float), [y0[i] for i in perm]
+    ref_fit = pe.least_squares(xp.copy(), list(yp), f, silent=True, initial_guess=guess)
+    for opts in ({'resplot': True}, {'qqplot': True}, {'resplot': True, 'qqplot': True}):
+        xb = xp.copy()
+        sub = dict(case, options=sorted(opts))
+        try:
+            pe.least_squares(xp, yp, f, silent=True, initial_guess=guess, **opts)
+            plt.close('all')
+            bad = None if np.array_equal(xp, xb) else 'least_squares(%s) changed the abscissae it was given: %s -> %s' % (opts, xb.tolist(), xp.tolist())
+            if not bad:
+                bad = _same_fit(pe.least_squares(xp, yp, f, silent=True, initial_guess=guess), ref_fit, 2, 1e-6, 1e-5)
+                bad = bad and 'the fit of the same objects after a fit with %s: %s' % (opts, bad)
+        except Exception as e:
+            plt.close('all')
+            bad = 'raised %s: %s' % (type(e).__name__, e)
+        if bad:
+            acc.fail('fit-sequence:argument-changed', sub, bad)
+            xp = xb.copy()
+        else:
+            acc.ok(('seq-opt', repr(sorted(opts))), True, 'fit-sequence')
     # (a) correlated fits of data sets on independent ensembles: the estimated correlation matrix is the identity for both,
     #     the errors differ
     sets = []
